@@ -31,11 +31,15 @@ ORDERS = [(OrderByType.NONE,), (OrderByType.ALPHA,), (OrderByType.NOTE_TYPE, Ord
           (OrderByType.CREATE_DATE,), (OrderByType.MODIFY_DATE, OrderByType.ALPHA)]
 
 
-def canonical_item(item):
-    """the item as zorg emits it: kind, priority only for todos that are not done/cancelled (explicit, default P3
-    spelled out), one space, the body"""
+def canonical_item(item, form=0):
+    """the item as zorg may emit it: kind, one space, the body, and
+       form 0: the priority spelled out for todos that are not done/cancelled (default P3 included)
+       form 1: no priority at all
+       form 2: the priority spelled out for every todo
+    Which form the code uses is not prescribed by the statement; the emitted text must equal ONE of them (so that the
+    concrete parse of that form is the parse of the emitted text) and must compile back to the same note."""
     pri = None
-    if item.kind in ("o", "<", ">"):
+    if item.kind != "-" and (form == 2 or (form == 0 and item.kind in ("o", "<", ">"))):
         pri = item.pri if item.pri is not None else "P3"
     return cm.Item(item.kind, pri=pri, layout=item.layout, lay=item.lay, words=item.words, cont=item.cont)
 
@@ -43,13 +47,14 @@ def canonical_item(item):
 _CANON = {}
 
 
-def canon(k, order):
-    """(spec', parsed') for the emitted page of spec k with its items in the given order"""
-    key = (k, tuple(order))
+def canon(k, order, forms=None):
+    """(spec', parsed') for the emitted page of spec k with its items in the given order / emitted forms"""
+    forms = tuple(forms) if forms is not None else (0,) * len(order)
+    key = (k, tuple(order), forms)
     if key not in _CANON:
         with NoTracing():
             items = [it for it, _ln in SPECS[k].items()]
-            lines = [("title", "h"), ("blank", None)] + [("item", canonical_item(items[j])) for j in order]
+            lines = [("title", "h"), ("blank", None)] + [("item", canonical_item(items[j], f)) for j, f in zip(order, forms)]
             spec2 = cm.PageSpec(SPECS[k].name + "-emitted", lines)
             text, holes = skel.assemble(spec2.parts())
             # a hole may occur once only per page; the emitted page has the same holes as the original
@@ -103,11 +108,15 @@ def check_c12(k, values):
     for j, (n, item) in enumerate(zip(notes, items)):
         if "KF-C12-1" in KNOWN and kf_c12_1(item):
             continue        # listed known finding, re-found by the complementary condition kf_1
-        spec2, ps = canon(k, (j,))
         text = n.to_string()
-        want = "".join(cm.val(p, values) for p in spec2.parts())
-        if "# h\n\n" + text != want:
-            return False
+        ps = None
+        for form in (0, 1, 2):
+            spec2, cand = canon(k, (j,), (form,))
+            if "# h\n\n" + text == "".join(cm.val(p, values) for p in spec2.parts()):
+                ps = cand
+                break
+        if ps is None:
+            return False        # emitted in none of the known forms: left to the replay to judge
         page2 = compile_parsed(ps, values)
         if page2.has_errors or len(page2.notes) != 1 or not same_note(n, page2.notes[0], item):
             return False
@@ -126,7 +135,18 @@ def check_selection(k, values, order_i):
     if sorted(perm) != list(range(len(notes))):
         return False
     items = [it for it, _ln in SPECS[k].items()]
-    spec2, ps = canon(k, perm)
+    # which form each note is emitted in (decided note by note on its own text)
+    forms = []
+    for n, i in zip(ordered, perm):
+        t = n.to_string()
+        for form in (0, 1, 2):
+            one = cm.PageSpec("x", [("item", canonical_item(items[i], form))])
+            if t == "".join(cm.val(p, values) for p in one.parts()):
+                forms.append(form)
+                break
+        else:
+            return False
+    spec2, ps = canon(k, perm, forms)
     want = "".join(cm.val(p, values) for p in spec2.parts())
     if "# h\n\n" + rendered + "\n" != want:
         return False
